@@ -332,6 +332,70 @@ def gen(seed, run, tier='quick'):
         scenario_probes += [('uu*', km, xu), ('uu*', xu, km),
                             ('qq*', km, xu)]
     if rng.random() < 0.15:
+        # scenario: two different units of one type WITHOUT reference unit
+        # (two currencies, two plain units) in one product, reached by
+        # nesting and cancellation: C = T*W, X = C*T/W (dimension T**2),
+        # X's unit derived from (a.w, b, w) is a.b; a*b and b*a must both
+        # find it, whatever the symbols' order
+        def add(act):
+            decl.apply(model, act)
+            decls.append(act)
+        ok = True
+        if rng.random() < 0.5:
+            tn_ = 'Money'
+            codes = [c for c in ('EUR', 'USD', 'CHF', 'GBP', 'JPY', 'SEK')]
+            ua, ub = rng.sample(codes, 2)
+            for c in (ua, ub):
+                if c not in model.units:
+                    add({'a': 'currency_reg', 'code': c,
+                         'expect': 'accept'})
+        else:
+            n = model.fresh()
+            tn_ = f'T{n}'
+            add({'a': 'base_type', 'name': tn_, 'ref_sym': None,
+                 'quantum': None, 'expect': 'accept'})
+            n = model.fresh()
+            ua, ub = f'u{n}', f'u{n}b'
+            if rng.random() < 0.5:
+                ua, ub = ub, ua
+            add({'a': 'plain_unit', 'type': tn_, 'sym': ua,
+                 'expect': 'accept'})
+            add({'a': 'plain_unit', 'type': tn_, 'sym': ub,
+                 'expect': 'accept'})
+        n = model.fresh()
+        wn, wref = f'T{n}', f'r{n}'
+        add({'a': 'base_type', 'name': wn, 'ref_sym': wref,
+             'quantum': None, 'expect': 'accept'})
+        dim_c = decl.dim_add(model.types[tn_]['dim'],
+                             model.types[wn]['dim'], 1)
+        dim_x = decl.dim_add({}, model.types[tn_]['dim'], 2)
+        if decl.dim_key(dim_c) in model.dims or \
+                decl.dim_key(dim_x) in model.dims:
+            ok = False
+        if ok:
+            n = model.fresh()
+            cn = f'D{n}'
+            add({'a': 'derived_type', 'name': cn,
+                 'items': [[tn_, 1], [wn, 1]], 'style': 0, 'ref_sym': None,
+                 'auto_ref': False, 'quantum': None, 'expect': 'accept',
+                 'dup_dim': False})
+            n = model.fresh()
+            cu = f'v{n}'
+            add({'a': 'derive_unit', 'type': cn, 'units': [ua, wref],
+                 'sym': cu, 'expect': 'accept'})
+            n = model.fresh()
+            xn = f'D{n}'
+            add({'a': 'derived_type', 'name': xn,
+                 'items': [[cn, 1], [tn_, 1], [wn, -1]], 'style': 0,
+                 'ref_sym': None, 'auto_ref': False, 'quantum': None,
+                 'expect': 'accept', 'dup_dim': False})
+            n = model.fresh()
+            xu = f'v{n}'
+            add({'a': 'derive_unit', 'type': xn, 'units': [cu, ub, wref],
+                 'sym': xu, 'expect': 'accept'})
+            scenario_probes += [('uu*', ua, ub), ('uu*', ub, ua),
+                                ('qq*', ub, ua), ('qq*', ua, ub)]
+    if rng.random() < 0.15:
         # scenario: a type is rejected because its reference symbol is
         # taken, later the same dimension is declared properly; operations
         # of that dimension must then give instances of the declared type
@@ -447,7 +511,7 @@ def gen(seed, run, tier='quick'):
         # mostly probes whose result exists at the end of the program
         if not ok and rng.random() < 0.85:
             continue
-        a1 = rng.choice(['3', '7/2', '1/3', '12.5', '100'])
+        a1 = rng.choice(['3', '7/2', '1/3', '12.5', '100', '0', '-3'])
         a2 = rng.choice(['2', '5/4', '0.25', '9'])
         probes.append({'id': len(probes), 'form': form, 's1': s1, 's2': s2,
                        'n': n, 'a1': a1, 'a2': a2})
@@ -541,10 +605,20 @@ def gen(seed, run, tier='quick'):
         # other operations of the API in between (quantize with explicit
         # rounding modes - also of amount zero -, round, convert, allocate,
         # add, compare): they must not influence any product / quotient
+        quantized = [s for p in probes for s in (p['s1'], p['s2'])
+                     if s in model.units and model.types[
+                         model.units[s]['type']]['quantum'] is not None]
+        operands = [p['s1'] for p in probes]
         for _ in range(hr.choice([0, 0, 2, 4])):
             if syms:
+                k = hr.randrange(12)
+                # mostly on operands of the probes; the allocating kinds
+                # mostly on operands of quantized types
+                pool_ = quantized if quantized and k in (4, 6, 7, 8, 9) \
+                    and hr.random() < 0.8 else \
+                    operands if operands and hr.random() < 0.6 else syms
                 steps.insert(hr.randrange(len(steps) + 1),
-                             ['other', hr.randrange(6), hr.choice(syms),
+                             ['other', k, hr.choice(pool_),
                               hr.choice(syms)])
         # all probes once more at the very end
         for p in probes:
@@ -688,6 +762,23 @@ def run_world(arg):
                 (3 * u).convert(v)
             elif k == 4:
                 (10 * u).allocate([1, 2, 3])
+            elif k == 6:
+                # shares 0.45 / 1.45 / 1.1: on a quantized type a portion
+                # rounded to zero receives the dispersed rounding error
+                (3 * (u.quantum or 1) * u).allocate([45, 145, 110])
+            elif k == 7:
+                ((u.quantum or 1) * u).allocate(
+                    [1, 1, 1], disperse_rounding_error=False)
+            elif k == 8:
+                (0 * u).allocate([1, 2])
+            elif k == 9:
+                (7 * u).allocate([1 * u, 3 * u])
+            elif k == 10:
+                z = 0 * u
+                hash(z), z == 0 * v, abs(-3 * u), -z, +z, z + z, z - z
+            elif k == 11:
+                sum([1 * u, 2 * u], 0 * u)
+                (5 * u) - (5 * u)
             else:
                 (3 * u) + (2 * v) < (5 * u)
         except Exception as e:      # noqa
